@@ -6,7 +6,8 @@ From Coq Require Import List NArith ZArith Bool Arith Lia ZifyN ZifyNat ZifyBool
 Import ListNotations.
 From GM Require Import Base.Topic Base.Msg Model.SubTrie Model.RetTrie Model.Queue Model.Limiter
                        Model.TopicMatch Model.Broker Oracle.C03O Proofs.TopicP Proofs.LimiterP Proofs.QueueP.
-From GM Require Model.CodecBase Model.CodecProps Model.CodecPackets.     (* the wire size of a packet, for one witness *)
+From GM Require Model.CodecBase Model.CodecProps Model.CodecPackets.     (* the wire size of a packet *)
+From GM Require Proofs.CodecBaseP Proofs.CodecStrP Proofs.CodecSizeP Proofs.CodecMsgP.   (* ... and the size lemmas of the codec slice *)
 Open Scope N_scope.
 
 (* ------------------------------------------------------------------ *)
@@ -881,7 +882,7 @@ Qed.
 Lemma wp_frame c k m : cq_eq k (fst (write_publish c k m)).
 Proof.
   unfold write_publish.
-  destruct ((k_v k =? 5) && (0 <? k_client_alias_max k)); [|apply cq_eq_refl].
+  destruct ((k_v k =? 5) && (0 <? k_client_alias_max k) && (msg_total_bytes true m + 5 <=? k_client_max_packet k)); [|apply cq_eq_refl].
   pose proof (am_check_max (m_topic m) (k_alias_out k)) as Hmx.
   destruct (am_check (m_topic m) (k_alias_out k)) as [am' [a ex|]]; cbn [fst snd] in *; [|apply cq_eq_refl].
   unfold cq_eq, same_static; cbn. auto 10.
@@ -894,12 +895,53 @@ Definition is_pub_of (c : N) (m : msg) (o : out) : Prop :=
     o = OSend c (KPublish (m_dup m) (m_qos m) (m_retained m) topic (m_payload m) (m_pid m) props) /\
     (topic = m_topic m \/ topic = []).
 
+Lemma p_alias_app a b : p_alias (a ++ b) = match p_alias a with Some x => Some x | None => p_alias b end.
+Proof. induction a as [|x a IH]; cbn [app p_alias]; [reflexivity|]. destruct x; auto. Qed.
+
+Lemma p_alias_map_none {A} (f : A -> prop) l : (forall x, match f x with PAlias _ => False | _ => True end) -> p_alias (map f l) = None.
+Proof. intros H. induction l as [|x r IH]; cbn [map p_alias]; [reflexivity|]. specialize (H x). destruct (f x); auto; contradiction. Qed.
+
+Lemma msg_props_no_alias v5 m : p_alias (msg_props v5 m) = None.
+Proof.
+  unfold msg_props. destruct v5; [|reflexivity].
+  rewrite !p_alias_app.
+  destruct (m_pfmt m =? 1); cbn [p_alias];
+  destruct (m_expiry m =? 0); cbn [p_alias];
+  destruct (m_ctype m); cbn [p_alias];
+  destruct (m_resp m); cbn [p_alias];
+  destruct (m_corr m); cbn [p_alias];
+  rewrite p_alias_map_none by (intros; exact I); rewrite p_alias_map_none by (intros; exact I); reflexivity.
+Qed.
+
+Definition out_alias (o : out) : option N :=
+  match o with OSend _ (KPublish _ _ _ _ _ _ props) => p_alias props | _ => None end.
+
+(* a packet that carries a Topic Alias was checked against the client's Maximum Packet Size with the margin of
+   the property (5 bytes) *)
+Definition alias_fits (L : N) (m : msg) (o : out) : Prop :=
+  out_alias o = None \/ (exists a, out_alias o = Some a) /\ msg_total_bytes true m + 5 <= L.
+
+Lemma wp_out_fits c k m : Forall (alias_fits (k_client_max_packet k) m) (snd (write_publish c k m)).
+Proof.
+  unfold write_publish.
+  destruct ((k_v k =? 5) && (0 <? k_client_alias_max k) && (msg_total_bytes true m + 5 <=? k_client_max_packet k)) eqn:Ea.
+  - apply andb_true_iff in Ea as [_ Ea]. apply N.leb_le in Ea.
+    destruct (am_check (m_topic m) (k_alias_out k)) as [am' [a ex|]]; cbn [snd]; [|constructor].
+    constructor; [|constructor]. unfold alias_fits. cbn [out_alias].
+    rewrite p_alias_app, msg_props_no_alias. destruct (a =? 0); cbn [p_alias]; [now left|right; eauto].
+  - cbn [snd]. constructor; [|constructor]. left. cbn [out_alias]. apply msg_props_no_alias.
+Qed.
+
+(* x is what write_publish writes for m on the connection, at some point of a turn (the alias table moves on) *)
+Definition written_by (c : N) (k : conn) (m : msg) (x : out) : Prop :=
+  exists k0, same_static k k0 /\ In x (snd (write_publish c k0 m)).
+
 (* with the alias manager sized as the client asked, exactly one PUBLISH is written *)
 Lemma wp_out c k m : am_max (k_alias_out k) = k_client_alias_max k ->
   exists o, snd (write_publish c k m) = [o] /\ is_pub_of c m o.
 Proof.
   intros Ham. unfold write_publish.
-  destruct ((k_v k =? 5) && (0 <? k_client_alias_max k)) eqn:Ea.
+  destruct ((k_v k =? 5) && (0 <? k_client_alias_max k) && (msg_total_bytes true m + 5 <=? k_client_max_packet k)) eqn:Ea.
   - pose proof (am_check_no_panic (m_topic m) (k_alias_out k)) as Hnp.
     destruct (am_check (m_topic m) (k_alias_out k)) as [am' [a ex|]] eqn:Ec; cbn [fst snd] in *.
     + eexists. split; [reflexivity|]. unfold is_pub_of. do 2 eexists. split; [reflexivity|].
@@ -1070,21 +1112,30 @@ Proof.
     split; [congruence|]. constructor; auto.
 Qed.
 
-Lemma send_fold_spec c : forall rs k o, am_max (k_alias_out k) = k_client_alias_max k ->
+Lemma send_fold_spec c kb : forall rs k o, same_static kb k -> am_max (k_alias_out k) = k_client_alias_max k ->
   exists k' o2, fold_left (send_step c) rs (k, o) = (k', o ++ o2) /\ cq_eq k k' /\
-    Forall2 (fun e x => match e_body e with QPub m => is_pub_of c m x | QRel _ => False end) (filter is_pub rs) o2.
+    Forall2 (fun e x => match e_body e with
+                        | QPub m => is_pub_of c m x /\ alias_fits (k_client_max_packet kb) m x /\ written_by c kb m x
+                        | QRel _ => False
+                        end) (filter is_pub rs) o2.
 Proof.
-  induction rs as [|e rs IH]; intros k o Ham; cbn [fold_left filter].
+  induction rs as [|e rs IH]; intros k o Hkb Ham; cbn [fold_left filter].
   - exists k, []. rewrite app_nil_r. split; [reflexivity|]. split; [apply cq_eq_refl|constructor].
   - unfold send_step at 2. unfold is_pub at 1. destruct (e_body e) as [m|p] eqn:Eb.
     + pose proof (wp_frame c k m) as Hf. destruct (wp_out c k m Ham) as (o1 & Ho1 & Hp1).
+      pose proof (wp_out_fits c k m) as Hfit.
       destruct (write_publish c k m) as [k1 o1'] eqn:Ew. cbn [fst snd] in *. subst o1'.
+      inversion Hfit as [|? ? Hfit1 _]; subst.
       assert (Ham1 : am_max (k_alias_out k1) = k_client_alias_max k1).
       { destruct Hf as (_ & _ & _ & (_&_&_&_&_&Hc) & Ha). now rewrite Ha, Hc. }
-      destruct (IH k1 (o ++ [o1]) Ham1) as (k' & o2 & Hfold & Hcq & Hall).
+      assert (HL : k_client_max_packet k = k_client_max_packet kb) by (destruct Hkb as (_&_&_&_&HL&_); exact HL).
+      assert (Hkb1 : same_static kb k1) by (destruct Hf as (_ & _ & _ & Hss & _); eapply same_static_trans; eauto).
+      destruct (IH k1 (o ++ [o1]) Hkb1 Ham1) as (k' & o2 & Hfold & Hcq & Hall).
       exists k', (o1 :: o2). rewrite Hfold, <- app_assoc. split; [reflexivity|].
-      split; [eapply cq_eq_trans; eauto|]. constructor; [now rewrite Eb|exact Hall].
-    + apply IH. exact Ham.
+      split; [eapply cq_eq_trans; eauto|]. constructor; [|exact Hall].
+      rewrite Eb. split; [exact Hp1|]. split; [now rewrite <- HL|].
+      exists k. split; [exact Hkb|]. rewrite Ew. now left.
+    + apply IH; assumption.
 Qed.
 
 (* list facts about prefixes and removal *)
@@ -1503,8 +1554,10 @@ Definition PollInv (w : bool) (s : st) (c : N) : Prop :=
     (forall cid', aget cid' (b_online s) = Some c -> cid' = k_cid k) /\
     b_tag s <> 0 /\ CQ w k q (b_tag s) inf que.
 
-Definition sent_as (c : N) (v5 : bool) (now : N) (r : elem) (x : out) : Prop :=
-  exists m, e_body r = QPub m /\ is_pub_of c (aged v5 now r m) x.
+Definition sent_as (c : N) (k : conn) (now : N) (r : elem) (x : out) : Prop :=
+  exists m, e_body r = QPub m /\ is_pub_of c (aged (k_v k =? 5) now r m) x /\
+            alias_fits (k_client_max_packet k) (aged (k_v k =? 5) now r m) x /\
+            written_by c k (aged (k_v k =? 5) now r m) x.
 
 Lemma read_from_body L v5 que ids r : read_from L v5 que ids r -> exists m, e_body r = QPub m.
 Proof. intros (v & m & _ & Hb & _ & _ & _ & [[_ ->]|(_ & p & _ & Hb')]); eauto. Qed.
@@ -1546,7 +1599,7 @@ Inductive poll_case (w : bool) (c : N) (s : st) (k : conn) (q : queue) (inf que 
     k_drained k = true -> k_held k = Some ids -> q_read (b_now s) ids q = QOk (q', rs, evs) ->
     o = drops_of (k_cid k) evs ++ pubs ->
     Forall (read_from (k_client_max_packet k) (k_v k =? 5) que ids) rs ->
-    Forall2 (sent_as c (k_v k =? 5) (b_now s)) rs pubs ->
+    Forall2 (sent_as c k (b_now s)) rs pubs ->
     (exists evs2 dq di, evs = evs2 ++ [EvQueue dq; EvInflight di] /\ Forall (read_drop que) evs2) ->
     q_cur q = length inf ->
     (exists k' inf2 que2, nget c (b_conns s') = Some k' /\ k_held k' = None /\ k_drained k' = true /\ same_static k k' /\
@@ -1608,7 +1661,8 @@ Proof.
       set (used := length (filter sent12 rs)) in *.
       set (k1 := set_lim_held (lim_batch_release (skipn used ids) (k_lim k)) None true k) in *.
       assert (Ham1 : am_max (k_alias_out k1) = k_client_alias_max k1) by apply (cq_am _ _ _ _ _ _ HCQ).
-      destruct (send_fold_spec c (map (age_elem (k_v k =? 5) (b_now s)) rs) k1 [] Ham1) as (k' & pubs & Hfold & Hcq & Hall).
+      destruct (send_fold_spec c k (map (age_elem (k_v k =? 5) (b_now s)) rs) k1 [] (same_static_slh _ _ _ k) Ham1)
+        as (k' & pubs & Hfold & Hcq & Hall).
       rewrite Hfold in Hp'. cbn [app] in Hp'. inversion Hp'; subst s' o. clear Hp'.
       pose proof Hcq as (Hl' & Hh' & Hd' & Hss' & Ha').
       assert (Hcid : k_cid k' = k_cid k) by (destruct Hss' as (Hx & _); exact Hx).
@@ -2073,15 +2127,15 @@ Proof.
   destruct (e_body el); reflexivity.
 Qed.
 
-Lemma sent_as_pids c v5 now rs pubs : Forall2 (sent_as c v5 now) rs pubs ->
+Lemma sent_as_pids c k now rs pubs : Forall2 (sent_as c k now) rs pubs ->
   out_pids c pubs = map e_id (filter sent12 rs).
 Proof.
-  intros H. induction H as [|r x rs pubs (m & Hb & topic & props & -> & _) H IH]; [reflexivity|].
+  intros H. induction H as [|r x rs pubs (m & Hb & (topic & props & -> & _) & _) H IH]; [reflexivity|].
   match goal with |- out_pids c (?a :: pubs) = _ => change (a :: pubs) with ([a] ++ pubs) end.
   rewrite out_pids_app, IH.
   assert (Hs : sent12 r = negb (m_qos m =? 0)) by (unfold sent12; now rewrite Hb).
   cbn [filter]. rewrite Hs.
-  destruct (aged_fields v5 now r m) as (_ & Aq & _ & _ & _ & Ap). unfold out_pids. cbn [flat_map]. rewrite N.eqb_refl, Aq, Ap. cbn [andb].
+  destruct (aged_fields (k_v k =? 5) now r m) as (_ & Aq & _ & _ & _ & Ap). unfold out_pids. cbn [flat_map]. rewrite N.eqb_refl, Aq, Ap. cbn [andb].
   destruct (m_qos m =? 0); cbn [negb app map]; [reflexivity|]. f_equal. unfold e_id. now rewrite Hb.
 Qed.
 
@@ -2179,7 +2233,8 @@ Definition first_send (c : N) (L : N) (v5 : bool) (que : list elem) (ids : list 
   exists v m0 m', In v que /\ e_body v = QPub m0 /\ msg_total_bytes v5 m0 <= L /\
     is_pub_of c m' x /\ m_dup m' = m_dup m0 /\ msg_total_bytes v5 m' = msg_total_bytes v5 m0 /\
     m_topic m' = m_topic m0 /\ m_payload m' = m_payload m0 /\ m_qos m' = m_qos m0 /\ m_retained m' = m_retained m0 /\
-    (m_qos m0 = 0 /\ m_pid m' = m_pid m0 \/ m_qos m0 <> 0 /\ In (m_pid m') ids).
+    (m_qos m0 = 0 /\ m_pid m' = m_pid m0 \/ m_qos m0 <> 0 /\ In (m_pid m') ids) /\
+    alias_fits L m' x.
 
 Theorem poll_once_send_spec w s c k q inf que s' o :
   nget c (b_conns s) = Some k -> aget (k_cid k) (b_queues s) = Some q -> CQ w k q (b_tag s) inf que ->
@@ -2193,7 +2248,7 @@ Proof.
   destruct Hcase as [Hd' _ _ _|rs Hd' _ _ _ _|ids _ Hh Ho _ _ _ Hq'|ids rs evs pubs q' _ Hh Hr Ho Hrs Hpubs Hevs Hc _]; try congruence.
   - subst o. contradiction.
   - subst o. apply in_app_or in Hx. destruct Hx as [Hx|Hx]; [left; eapply In_drops_of; eauto|right].
-    destruct (Forall2_in_r _ _ _ _ Hpubs Hx) as (r & Hr' & m & Hb & Hpub).
+    destruct (Forall2_in_r _ _ _ _ Hpubs Hx) as (r & Hr' & m & Hb & Hpub & Hfit & _).
     rewrite Forall_forall in Hrs. destruct (Hrs r Hr') as (v & m0 & Hv & Hbv & Hsz & _ & _ & Hcs).
     destruct (aged_fields (k_v k =? 5) (b_now s) r m) as (A1 & A2 & A3 & A4 & A5 & A6).
     assert (Hhe : held_ids k = ids) by (unfold held_ids; now rewrite Hh).
@@ -2230,6 +2285,25 @@ Proof.
   destruct (poll_once_send_spec w s c k q inf que s' o Hk Hq HCQ Hd Hp _ Hin) as [(m & r & Hx)|Hx]; [exfalso; eapply Hnd; eauto|].
   destruct Hx as (v & m0 & m' & Hv & Hb & Hsz & Hpub & _ & Hsz' & _).
   exists m'. split; [exact Hpub|]. now rewrite Hsz'.
+Qed.
+
+(* ... and the Topic Alias property is added only when it cannot push the packet over that maximum: a packet
+   written for a queued message either carries no alias and the message measures at most the maximum, or it
+   carries one and the message as a v5 packet plus the margin of the property (5 bytes: 3 for the property, one
+   for a longer Property Length, one for a longer Remaining Length) measures at most the maximum *)
+Theorem C13_out_size_with_alias w s c k s' o x :
+  PollInv w s c -> nget c (b_conns s) = Some k -> k_drained k = true -> poll_once c s = Some (s', o) ->
+  In x o -> (forall cid m r, x <> ODropped cid m r) ->
+  exists m, is_pub_of c m x /\
+    (out_alias x = None /\ msg_total_bytes (k_v k =? 5) m <= k_client_max_packet k \/
+     (exists a, out_alias x = Some a) /\ msg_total_bytes true m + 5 <= k_client_max_packet k).
+Proof.
+  intros (k0 & q & inf & que & Hk0 & Hq & _ & _ & _ & HCQ) Hk Hd Hp Hin Hnd.
+  rewrite Hk in Hk0. inversion Hk0; subst k0. clear Hk0.
+  destruct (poll_once_send_spec w s c k q inf que s' o Hk Hq HCQ Hd Hp _ Hin) as [(m & r & Hx)|Hx]; [exfalso; eapply Hnd; eauto|].
+  destruct Hx as (v & m0 & m' & Hv & Hb & Hsz & Hpub & _ & Hsz' & _ & _ & _ & _ & _ & Hfit).
+  exists m'. split; [exact Hpub|]. destruct Hfit as [Hn|Hs]; [left|right; exact Hs].
+  split; [exact Hn|]. now rewrite Hsz'.
 Qed.
 
 (* ------------------------------------------------------------------ *)
@@ -2527,24 +2601,6 @@ Qed.
 (* 14. C13: outbound topic aliases over the PUBLISH packets of one connection *)
 (* ------------------------------------------------------------------ *)
 
-Lemma p_alias_app a b : p_alias (a ++ b) = match p_alias a with Some x => Some x | None => p_alias b end.
-Proof. induction a as [|x a IH]; cbn [app p_alias]; [reflexivity|]. destruct x; auto. Qed.
-
-Lemma p_alias_map_none {A} (f : A -> prop) l : (forall x, match f x with PAlias _ => False | _ => True end) -> p_alias (map f l) = None.
-Proof. intros H. induction l as [|x r IH]; cbn [map p_alias]; [reflexivity|]. specialize (H x). destruct (f x); auto; contradiction. Qed.
-
-Lemma msg_props_no_alias v5 m : p_alias (msg_props v5 m) = None.
-Proof.
-  unfold msg_props. destruct v5; [|reflexivity].
-  rewrite !p_alias_app.
-  destruct (m_pfmt m =? 1); cbn [p_alias];
-  destruct (m_expiry m =? 0); cbn [p_alias];
-  destruct (m_ctype m); cbn [p_alias];
-  destruct (m_resp m); cbn [p_alias];
-  destruct (m_corr m); cbn [p_alias];
-  rewrite p_alias_map_none by (intros; exact I); rewrite p_alias_map_none by (intros; exact I); reflexivity.
-Qed.
-
 Fixpoint wp_run (c : N) (k : conn) (ms : list msg) : conn * list out :=
   match ms with
   | [] => (k, [])
@@ -2578,19 +2634,28 @@ Fixpoint client_resolve (M : N) (tb : atable) (os : list out) : option (list str
               end
   end.
 
-Definition out_alias (o : out) : option N :=
-  match o with OSend _ (KPublish _ _ _ _ _ _ props) => p_alias props | _ => None end.
+(* the packet of message m carries a Topic Alias exactly when it fits the client's Maximum Packet Size with
+   the margin of the property; otherwise it is sent plain, with its topic *)
+Definition alias_used (k : conn) (m : msg) (o : out) : Prop :=
+  if msg_total_bytes true m + 5 <=? k_client_max_packet k
+  then exists a, out_alias o = Some a /\ 1 <= a <= k_client_alias_max k
+  else out_alias o = None.
 
 Lemma wp_alias_step c k m tb :
   k_v k = 5 -> 1 <= k_client_alias_max k <= MAXPID -> am_max (k_alias_out k) = k_client_alias_max k ->
   AliasInv (k_alias_out k) -> AliasSim (k_alias_out k) tb -> m_topic m <> [] ->
-  exists o a tb', snd (write_publish c k m) = [o] /\ out_alias o = Some a /\ 1 <= a <= k_client_alias_max k /\
+  exists o tb', snd (write_publish c k m) = [o] /\ alias_used k m o /\
     client_alias_step (k_client_alias_max k) tb o = Some (tb', m_topic m) /\
     AliasInv (k_alias_out (fst (write_publish c k m))) /\ AliasSim (k_alias_out (fst (write_publish c k m))) tb'.
 Proof.
-  intros Hv HM Ham Hinv Hsim Ht. unfold write_publish.
+  intros Hv HM Ham Hinv Hsim Ht. unfold write_publish, alias_used.
   assert (Hc : (k_v k =? 5) && (0 <? k_client_alias_max k) = true) by (rewrite Hv; cbn; lia).
-  rewrite Hc.
+  rewrite Hc. cbn [andb].
+  destruct (msg_total_bytes true m + 5 <=? k_client_max_packet k).
+  2:{ (* no room for the property: the packet is sent plain; the client's table is not touched *)
+      eexists. exists tb. cbn [fst snd]. split; [reflexivity|]. cbn [out_alias client_alias_step].
+      rewrite msg_props_no_alias. split; [reflexivity|]. split; [|split; assumption].
+      destruct (m_topic m); [congruence|reflexivity]. }
   assert (HM' : 1 <= am_max (k_alias_out k) <= MAXPID) by lia.
   destruct (alias_step_sim (m_topic m) (k_alias_out k) tb Hinv HM' Hsim) as (tb' & Hstep & Hsim').
   pose proof (am_check_inv (m_topic m) (k_alias_out k) Hinv ltac:(lia)) as Hinv'.
@@ -2598,28 +2663,35 @@ Proof.
   unfold alias_step in Hstep. rewrite Ham in Hstep.
   destruct ((1 <=? a) && (a <=? k_client_alias_max k)) eqn:Er; [|discriminate].
   assert (Ha0 : (a =? 0) = false) by lia. rewrite Ha0.
-  eexists. exists a, tb'. split; [reflexivity|]. cbn [out_alias client_alias_step k_alias_out].
+  eexists. exists tb'. split; [reflexivity|]. cbn [out_alias client_alias_step k_alias_out].
   rewrite p_alias_app, msg_props_no_alias. cbn [p_alias]. rewrite Er.
-  split; [reflexivity|]. split; [lia|]. split; [|split; assumption].
+  split; [exists a; split; [reflexivity|lia]|]. split; [|split; assumption].
   destruct ex.
   - destruct (at_get a tb) as [t0|]; [|discriminate]. destruct (str_eqb t0 (m_topic m)) eqn:Et; [|discriminate].
     apply str_eqb_eq in Et. inversion Hstep; subst. reflexivity.
   - inversion Hstep; subst. destruct (m_topic m); [congruence|reflexivity].
 Qed.
 
-(* Target 8: the PUBLISH packets written on one v5 connection whose client announced Topic Alias Maximum M >= 1
-   all carry an alias in 1..M, and a client that replays them resolves every packet to the message's topic *)
+Lemma alias_used_static k k' m o :
+  k_client_max_packet k' = k_client_max_packet k -> k_client_alias_max k' = k_client_alias_max k ->
+  alias_used k' m o -> alias_used k m o.
+Proof. unfold alias_used. now intros -> ->. Qed.
+
+(* Target 8: the PUBLISH packets written on one v5 connection whose client announced Topic Alias Maximum M >= 1:
+   one packet per message; it carries an alias in 1..M when the packet with the property still fits the client's
+   Maximum Packet Size (margin 5), and is sent plain otherwise; a client that replays them resolves every packet
+   to the message's topic *)
 Theorem C13_out_alias_gen c : forall ms k tb,
   k_v k = 5 -> 1 <= k_client_alias_max k <= MAXPID -> am_max (k_alias_out k) = k_client_alias_max k ->
   AliasInv (k_alias_out k) -> AliasSim (k_alias_out k) tb -> Forall (fun m => m_topic m <> []) ms ->
   client_resolve (k_client_alias_max k) tb (snd (wp_run c k ms)) = Some (map m_topic ms) /\
-  Forall (fun o => exists a, out_alias o = Some a /\ 1 <= a <= k_client_alias_max k) (snd (wp_run c k ms)).
+  Forall2 (alias_used k) ms (snd (wp_run c k ms)).
 Proof.
   induction ms as [|m ms IH]; intros k tb Hv HM Ham Hinv Hsim Hts; cbn [wp_run map].
   - split; [reflexivity|constructor].
   - inversion Hts as [|? ? Ht Hts']; subst.
-    destruct (wp_alias_step c k m tb Hv HM Ham Hinv Hsim Ht) as (o & a & tb' & Ho & Ha & Hr & Hstep & Hinv' & Hsim').
-    pose proof (wp_frame c k m) as (_ & _ & _ & (_ & Hv' & _ & _ & _ & Hcam) & Hamx).
+    destruct (wp_alias_step c k m tb Hv HM Ham Hinv Hsim Ht) as (o & tb' & Ho & Hu & Hstep & Hinv' & Hsim').
+    pose proof (wp_frame c k m) as (_ & _ & _ & (_ & Hv' & _ & _ & Hcmp & Hcam) & Hamx).
     destruct (write_publish c k m) as [k1 o1]. cbn [fst snd] in *. subst o1.
     assert (Ham1 : am_max (k_alias_out k1) = k_client_alias_max k1) by congruence.
     rewrite <- Hcam in HM.
@@ -2627,7 +2699,8 @@ Proof.
     destruct (wp_run c k1 ms) as [k2 o2]. cbn [snd app] in *.
     split.
     + cbn [client_resolve]. rewrite Hstep. rewrite <- Hcam. now rewrite Hres.
-    + constructor; [exists a; split; [exact Ha|exact Hr]|]. rewrite <- Hcam. exact Hall.
+    + constructor; [exact Hu|]. eapply Forall2_impl_in; [|exact Hall].
+      intros m' o' _. now apply alias_used_static.
 Qed.
 
 Lemma alias_sim_init max : AliasSim (am_new max) [].
@@ -2637,7 +2710,7 @@ Theorem C13_out_alias_conn c ms k :
   k_v k = 5 -> 1 <= k_client_alias_max k <= 65535 -> k_alias_out k = am_new (k_client_alias_max k) ->
   Forall (fun m => m_topic m <> []) ms ->
   client_resolve (k_client_alias_max k) [] (snd (wp_run c k ms)) = Some (map m_topic ms) /\
-  Forall (fun o => exists a, out_alias o = Some a /\ 1 <= a <= k_client_alias_max k) (snd (wp_run c k ms)).
+  Forall2 (alias_used k) ms (snd (wp_run c k ms)).
 Proof.
   intros Hv HM Hao Hts. apply C13_out_alias_gen; auto.
   - rewrite Hao. reflexivity.
@@ -2907,15 +2980,25 @@ Example wx_total_bytes_is_wire_len :
   msg_total_bytes true wx_m11 = 11 /\ wire_len (OSend 1 (KPublish false 1 false wx_T [1; 2; 3] 1 [])) = Some 11.
 Proof. vm_compute. split; reflexivity. Qed.
 
-(* kf_alias_pushes_over_max_size: ANSWER = YES.  The message measures 11 bytes = the client's maximum, so it is
-   not dropped; write_publish then adds the Topic Alias property: the first use is 14 bytes on the wire, the
-   second (topic left out) still 13: both exceed the declared maximum 11 *)
-Example C13_alias_pushes_over_refuted :
-  option_map k_client_max_packet (nget 1 (b_conns wx_a0)) = Some 11 /\
-  let o := concat (snd (run wx_a0 [wx_pub 1 11 [1; 2; 3]; wx_pub 1 12 [1; 2; 3]])) in
-  filter (fun x => match x with OSend 1 _ => true | _ => false end) o =
+(* kf_alias_pushes_over_max_size, after the repair (C13_out_size_with_alias is the general statement).  The
+   message measures 11 bytes.  Maximum Packet Size 11: it is not dropped and - formerly sent with the Topic Alias
+   property as 14 and 13 bytes - it is now sent plain, 11 bytes on the wire both times.  Maximum 16 = 11 + the
+   margin: the alias is used, 14 bytes for the first use and 13 for the second (topic left out).  Maximum 15: sent
+   plain although 14 bytes would have fitted - the margin is the worst case of the property, not its actual cost *)
+Definition wx_a1 (mx : N) : st :=
+  fst (run wx_init [EConnect 1 (wx_connect 5 wx_S false [PSei 100; PMaxPkt mx; PAliasMax 2]); wx_sub 1;
+                    EConnect 2 (wx_connect 4 wx_P true [])]).
+Definition wx_sent1 (s : st) : list out :=
+  filter (fun x => match x with OSend 1 _ => true | _ => false end)
+         (concat (snd (run s [wx_pub 1 11 [1; 2; 3]; wx_pub 1 12 [1; 2; 3]]))).
+Example C13_alias_margin_examples :
+  wx_a1 11 = wx_a0 /\ option_map k_client_max_packet (nget 1 (b_conns wx_a0)) = Some 11 /\
+  wx_sent1 wx_a0 = [OSend 1 (KPublish false 1 false wx_T [1; 2; 3] 1 []); OSend 1 (KPublish false 1 false wx_T [1; 2; 3] 11 [])] /\
+  map wire_len (wx_sent1 wx_a0) = [Some 11; Some 11] /\
+  wx_sent1 (wx_a1 16) =
     [OSend 1 (KPublish false 1 false wx_T [1; 2; 3] 1 [PAlias 1]); OSend 1 (KPublish false 1 false [] [1; 2; 3] 11 [PAlias 1])] /\
-  map wire_len (filter (fun x => match x with OSend 1 _ => true | _ => false end) o) = [Some 14; Some 13].
+  map wire_len (wx_sent1 (wx_a1 16)) = [Some 14; Some 13] /\
+  map wire_len (wx_sent1 (wx_a1 15)) = [Some 11; Some 11].
 Proof. vm_compute. repeat split. Qed.
 
 (* C13_out_size is about first transmissions only: a session that comes back with a smaller Maximum Packet Size
@@ -3092,27 +3175,370 @@ Proof.
            cbn [fold_left] in H. inversion H; subst s' o. clear H.
            cbn [set_tables b_conns upd_conn] in Hk; rewrite nget_nset_eq in Hk; inversion Hk; subst k.
            rewrite Hq0 in Eqo. destruct (Hqs qold Eqo) as (inf & que & HQ & Hw).
-           apply (Hfin _ true); auto.
+           match goal with |- PollInv w (set_tables (aset cid ?se _) _ _ _ _ _ (upd_conn c _ ?sx)) c =>
+             refine (Hfin sx true _ _ _ se) end.
            ++ cbn [set_tables b_online]. intros x Hx. now rewrite <- Ho0.
+           ++ exact Ht0.
            ++ intros _. exists qold, inf, que. cbn [set_tables b_queues]. rewrite aget_aset_eq. auto.
         -- match type of H with (let (_, _) := ?X in _) = _ => destruct X as [wdelay expiry] end.
            cbn [fold_left] in H. inversion H; subst s' o. clear H.
            cbn [set_tables b_conns upd_conn] in Hk; rewrite nget_nset_eq in Hk; inversion Hk; subst k.
-           apply (Hfin _ false); auto; [intros x Hx; now rewrite <- Ho0|discriminate].
+           match goal with |- PollInv w (set_tables (aset cid ?se _) _ _ _ _ _ _) c =>
+             refine (Hfin s0 false _ _ _ se) end; [intros x Hx; now rewrite <- Ho0|exact Ht0|discriminate].
       * match type of H with (let (_, _) := ?X in _) = _ => destruct X as [wdelay expiry] end.
         cbn [fold_left] in H. inversion H; subst s' o. clear H.
            cbn [set_tables b_conns upd_conn] in Hk; rewrite nget_nset_eq in Hk; inversion Hk; subst k.
-        apply (Hfin _ false); auto; [intros x Hx; now rewrite <- Ho0|discriminate].
+        match goal with |- PollInv w (set_tables (aset cid ?se _) _ _ _ _ _ _) c =>
+          refine (Hfin s0 false _ _ _ se) end; [intros x Hx; now rewrite <- Ho0|exact Ht0|discriminate].
     + (* the old session is discarded; no will is pending *)
       assert (Hwr : aget cid (b_wills (remove_session cid s0)) = None) by (cbn; now rewrite Hw0).
       rewrite Hwr in H.
       match type of H with (let (_, _) := ?X in _) = _ => destruct X as [wdelay expiry] end.
       cbn [fold_left] in H. inversion H; subst s' o. clear H.
            cbn [set_tables b_conns upd_conn] in Hk; rewrite nget_nset_eq in Hk; inversion Hk; subst k.
-      apply (Hfin _ false); auto; [|discriminate].
+      match goal with |- PollInv w (set_tables (aset cid ?se _) _ _ _ _ _ _) c =>
+        refine (Hfin (remove_session cid s0) false _ _ _ se) end; [|exact Ht0|discriminate].
       cbn. intros x Hx. apply In_adel in Hx. now rewrite <- Ho0.
   - match type of H with (let (_, _) := ?X in _) = _ => destruct X as [wdelay expiry] end.
     cbn [fold_left] in H. inversion H; subst s' o. clear H.
            cbn [set_tables b_conns upd_conn] in Hk; rewrite nget_nset_eq in Hk; inversion Hk; subst k.
-    apply (Hfin _ false); auto; [intros x Hx; now rewrite <- Ho0|discriminate].
+    match goal with |- PollInv w (set_tables (aset cid ?se _) _ _ _ _ _ _) c =>
+      refine (Hfin s0 false _ _ _ se) end; [intros x Hx; now rewrite <- Ho0|exact Ht0|discriminate].
+Qed.
+
+Example wx_connect_establishes :
+  aget wx_S (b_online wx_s3) = None /\ aget wx_S (b_wills wx_s3) = None /\
+  forallb (fun kv => negb (snd kv =? 1)) (b_online wx_s3) = true /\
+  option_map (fun q => (qinv_b q (b_tag wx_s3), length (q_inf q))) (aget wx_S (b_queues wx_s3)) = Some (true, 2%nat) /\
+  pollinv_b true (wx_s4 2) 1 = true.
+Proof. vm_compute. repeat split. Qed.
+
+(* ------------------------------------------------------------------ *)
+(* 18. poll_conn and poll_all keep the invariant of every attached connection *)
+(* ------------------------------------------------------------------ *)
+
+Definition attached (k : conn) : Prop := k_phase k = PhConnected \/ k_phase k = PhZombie.
+Definition AllPoll (w : bool) (s : st) : Prop :=
+  forall c k, nget c (b_conns s) = Some k -> attached k -> PollInv w s c.
+
+Lemma poll_once_detached c s k : nget c (b_conns s) = Some k -> ~ attached k -> poll_once c s = None.
+Proof. intros Hk Hn. rewrite poll_once_eq, Hk. unfold attached in Hn. destruct (k_phase k); try reflexivity; tauto. Qed.
+
+Lemma poll_once_absent c s : nget c (b_conns s) = None -> poll_once c s = None.
+Proof. intros Hk. now rewrite poll_once_eq, Hk. Qed.
+
+Lemma attached_dec k : {attached k} + {~ attached k}.
+Proof. unfold attached. destruct (k_phase k); (left; tauto) || (right; intros [H|H]; discriminate). Qed.
+
+Lemma poll_once_AllPoll w c s s' o : AllPoll w s -> poll_once c s = Some (s', o) -> AllPoll w s'.
+Proof.
+  intros HA Hp. destruct (nget c (b_conns s)) as [k|] eqn:Hk; [|rewrite (poll_once_absent c s Hk) in Hp; discriminate].
+  destruct (attached_dec k) as [Hat|Hna]; [|rewrite (poll_once_detached c s k Hk Hna) in Hp; discriminate].
+  pose proof (HA c k Hk Hat) as HP.
+  pose proof HP as (k0 & q & inf & que & Hk0 & Hq & _ & _ & _ & HCQ).
+  rewrite Hk in Hk0. inversion Hk0; subst k0. clear Hk0.
+  destruct (poll_once_cases w c s s' o k q inf que Hk Hq HCQ Hp) as (_ & _ & _ & Hconns & _ & _).
+  intros c2 k2 Hk2 Hat2. destruct (N.eq_dec c2 c) as [->|Hne].
+  - eapply poll_once_inv; eauto.
+  - rewrite (Hconns c2 Hne) in Hk2. eapply poll_once_frame; eauto.
+Qed.
+
+Lemma poll_conn_AllPoll w c : forall fuel s, AllPoll w s -> AllPoll w (fst (poll_conn fuel c s)).
+Proof.
+  induction fuel as [|f IH]; intros s HA; cbn [poll_conn]; [exact HA|].
+  destruct (poll_once c s) as [[s' o]|] eqn:Hp; [|exact HA].
+  pose proof (IH s' (poll_once_AllPoll w c s s' o HA Hp)) as H.
+  destruct (poll_conn f c s') as [s'' o']. exact H.
+Qed.
+
+(* Target 2, at the level of step: whatever an event did, running all poll loops to quiescence keeps the
+   invariant of every attached connection *)
+Theorem poll_all_AllPoll w s : AllPoll w s -> AllPoll w (fst (poll_all s)).
+Proof.
+  unfold poll_all. intros HA.
+  apply (fold_pair_inv (AllPoll w)); [|exact HA].
+  intros s0 o0 ck H0. pose proof (poll_conn_AllPoll w (fst ck) 400 s0 H0) as H.
+  destruct (poll_conn 400 (fst ck) s0). exact H.
+Qed.
+
+Example wx_all_poll :
+  forallb (fun ck => match k_phase (snd ck) with
+                     | PhConnected | PhZombie => pollinv_b true wx_s1 (fst ck)
+                     | _ => true
+                     end) (b_conns wx_s1) = true /\ length (b_conns wx_s1) = 2%nat.
+Proof. vm_compute. split; reflexivity. Qed.
+
+(* ------------------------------------------------------------------ *)
+(* 19. the invariant, spelled out (for Props/C03w.v)                    *)
+(* ------------------------------------------------------------------ *)
+
+Lemma PollInv_unfold w s c : PollInv w s c <->
+  exists k q inf que,
+    nget c (b_conns s) = Some k /\ aget (k_cid k) (b_queues s) = Some q /\
+    aget (k_cid k) (b_online s) = Some c /\ (forall cid', aget cid' (b_online s) = Some c -> cid' = k_cid k) /\
+    b_tag s <> 0 /\ CQ w k q (b_tag s) inf que.
+Proof. reflexivity. Qed.
+
+Lemma CQ_limiter_is_queue w k q b inf que : CQ w k q b inf que ->
+  LimInv (k_lim k) /\ l_limit (k_lim k) = k_max_inflight k /\
+  (forall i, In i (l_locked (k_lim k)) <-> In i (map e_id (firstn (q_cur q) inf) ++ held_ids k)) /\
+  NoDup (map e_id inf ++ held_ids k) /\
+  l_used (k_lim k) = N.of_nat (q_cur q + length (held_ids k)) /\
+  (w = true -> k_drained k = true -> l_used (k_lim k) <= l_limit (k_lim k)).
+Proof.
+  intros H. split; [apply (cq_lim _ _ _ _ _ _ H)|]. split; [apply (cq_limit _ _ _ _ _ _ H)|].
+  split; [apply (cq_locked _ _ _ _ _ _ H)|]. split; [apply (cq_nd _ _ _ _ _ _ H)|].
+  split; [apply (CQ_used _ _ _ _ _ _ H)|]. intros Hw Hd. pose proof (cq_win _ _ _ _ _ _ H Hw) as Hwin. now rewrite Hd in Hwin.
+Qed.
+
+Example wx_invariant_reachable :
+  PollInv true wx_s0 1 /\ PollInv true wx_s1 1 /\ PollInv true wx_s2 1 /\ PollInv true (wx_s4 2) 1 /\ PollInv false (wx_s4 1) 1.
+Proof. repeat split; apply pollinv_b_sound; vm_compute; reflexivity. Qed.
+
+(* ------------------------------------------------------------------ *)
+(* 20. corollaries                                                     *)
+(* ------------------------------------------------------------------ *)
+
+(* Target 5 in one piece: after the CONNECT that resumes a session (no take-over), the poll loop of the new
+   connection first retransmits the in-flight entries of the stored queue, in order *)
+Theorem C03_replay_after_connect w c cn s s' o k q' fuel :
+  handle_connect c cn s = (s', o) -> nget c (b_conns s') = Some k -> k_phase k = PhConnected ->
+  aget (k_cid k) (b_online s) = None -> aget (k_cid k) (b_wills s) = None ->
+  (forall cid', ~ In (cid', c) (b_online s)) ->
+  (forall q, aget (k_cid k) (b_queues s) = Some q ->
+             exists inf que, QInv q (b_tag s) inf que /\ (w = true -> N.of_nat (length inf) <= k_max_inflight k)) ->
+  c_max_inflight (b_cfg s) <= MAXPID -> b_tag s <> 0 ->
+  aget (k_cid k) (b_queues s') = Some q' -> 1 <= k_max_inflight k -> (length (q_inf q') - q_cur q' < fuel)%nat ->
+  exists o1 o2, snd (poll_conn fuel c s') = o1 ++ o2 /\
+    Forall2 (is_retrans c) (skipn (q_cur q') (q_inf q')) o1 /\ all_dup0 o2.
+Proof.
+  intros H Hk Hph Hon Hwl Hnc Hqs Hmax Htag Hq' Hm Hfuel.
+  pose proof (connect_establishes w c cn s s' o k H Hk Hph Hon Hwl Hnc Hqs Hmax Htag) as HP.
+  destruct (handle_connect_conn c cn s s' o k H Hk Hph) as (_ & _ & _ & _ & _ & Hd & _).
+  eapply C03_replay_first; eauto.
+Qed.
+
+(* C13: dropping an oversize message (or anything else the poll loop does) leaves the connection up *)
+Theorem poll_once_conn_stays w c s s' o k :
+  PollInv w s c -> nget c (b_conns s) = Some k -> poll_once c s = Some (s', o) ->
+  exists k', nget c (b_conns s') = Some k' /\ same_static k k'.
+Proof.
+  intros (k0 & q & inf & que & Hk0 & Hq & _ & _ & _ & HCQ) Hk Hp.
+  rewrite Hk in Hk0. inversion Hk0; subst k0. clear Hk0.
+  destruct (poll_once_cases w c s s' o k q inf que Hk Hq HCQ Hp) as (_ & _ & _ & _ & _ & Hcase).
+  destruct (poll_case_next _ _ _ _ _ _ _ _ _ Hcase) as (k' & q' & inf' & que' & Hk' & Hss & _). eauto.
+Qed.
+
+(* C13: what the size filter drops is reported, and only queued (never sent) messages are dropped by it *)
+Theorem C13_oversize_dropped w s c k q s' o cid m r :
+  PollInv w s c -> nget c (b_conns s) = Some k -> aget (k_cid k) (b_queues s) = Some q ->
+  poll_once c s = Some (s', o) -> In (ODropped cid m r) o ->
+  cid = k_cid k /\ (r = DExpired \/ r = DExceedsMax) /\
+  exists d, In d (skipn (length (q_inf q)) (q_l q)) /\ e_body d = QPub m.
+Proof.
+  intros (k0 & q0 & inf & que & Hk0 & Hq0 & _ & _ & _ & HCQ) Hk Hq Hp Hin.
+  rewrite Hk in Hk0. inversion Hk0; subst k0. rewrite Hq in Hq0. inversion Hq0; subst q0. clear Hk0 Hq0.
+  pose proof (cq_q _ _ _ _ _ _ HCQ) as HQ.
+  destruct (poll_once_cases w c s s' o k q inf que Hk Hq HCQ Hp) as (_ & _ & _ & _ & _ & Hcase).
+  assert (Hque : skipn (length (q_inf q)) (q_l q) = que).
+  { rewrite (q_inf_eq _ _ _ _ HQ), (qi_l _ _ _ _ HQ). rewrite skipn_app, skipn_all, Nat.sub_diag. reflexivity. }
+  rewrite Hque.
+  destruct Hcase as [_ Ho _ _|rs _ _ Hret _ _|ids _ _ Ho _ _ _ _|ids rs evs pubs q' _ _ _ Ho Hrs Hpubs (evs2 & dq & di & Hevs & Hdrops) _ _].
+  - subst o. contradiction.
+  - exfalso. destruct (Forall2_in_r _ _ _ _ Hret Hin) as (e & _ & He). unfold is_retrans in He.
+    destruct (e_body e); [destruct He as (t & ps & He & _); discriminate|discriminate].
+  - subst o. contradiction.
+  - subst o. apply in_app_or in Hin. destruct Hin as [Hin|Hin].
+    + unfold drops_of in Hin. apply in_flat_map in Hin. destruct Hin as (ev & Hev & Hx).
+      subst evs. apply in_app_or in Hev. destruct Hev as [Hev|Hev];
+        [|cbn [In] in Hev; destruct Hev as [Hev|[Hev|Hev]]; try contradiction; subst ev; contradiction].
+      rewrite Forall_forall in Hdrops. destruct (Hdrops ev Hev) as (d & Hd & [-> | ->]); cbn in Hx;
+        destruct (e_body d) as [m0|p] eqn:Eb; try contradiction; destruct Hx as [Hx|[]]; inversion Hx; subst;
+        (split; [reflexivity|]); (split; [auto|]); exists d; auto.
+    + exfalso. destruct (Forall2_in_r _ _ _ _ Hpubs Hin) as (e & _ & m0 & _ & (t & ps & Hx & _) & _). discriminate.
+Qed.
+
+(* ------------------------------------------------------------------ *)
+(* 18. C13 on the wire: the encoded size of what write_publish writes  *)
+(* ------------------------------------------------------------------ *)
+(* wire_len (section 16) encodes a PUBLISH with the codec model (Model/CodecPackets.v).  msg_total_bytes is the
+   encoded size of the message without alias (Proofs/CodecMsgP.v); here: the packet write_publish writes, with or
+   without the Topic Alias property, measures at most msg_total_bytes + 5 and so stays within the client's maximum *)
+Import CodecBaseP CodecStrP.
+
+Definition wp_step (acc : CodecProps.props) (p : prop) : CodecProps.props :=
+  match p with
+  | PPfmt n => CodecProps.set_single 1 (CodecProps.PVByte n) acc
+  | PMsgExpiry n => CodecProps.set_single 2 (CodecProps.PVU32 n) acc
+  | PCtype x => CodecProps.set_single 3 (CodecProps.PVStr x) acc
+  | PResp x => CodecProps.set_single 8 (CodecProps.PVStr x) acc
+  | PCorr x => CodecProps.set_single 9 (CodecProps.PVStr x) acc
+  | PAlias n => CodecProps.set_single 35 (CodecProps.PVU16 n) acc
+  | PSubId n => {| CodecProps.pr_single := CodecProps.pr_single acc;
+                   CodecProps.pr_subid := CodecProps.pr_subid acc ++ [n];
+                   CodecProps.pr_user := CodecProps.pr_user acc |}
+  | PUser a b => {| CodecProps.pr_single := CodecProps.pr_single acc;
+                    CodecProps.pr_subid := CodecProps.pr_subid acc;
+                    CodecProps.pr_user := CodecProps.pr_user acc ++ [(a, b)] |}
+  | _ => acc
+  end.
+
+Lemma wire_props_eq ps : wire_props ps = fold_left wp_step ps CodecProps.props_empty.
+Proof. reflexivity. Qed.
+
+Lemma fold_subid l : forall acc,
+  fold_left wp_step (map PSubId l) acc =
+  {| CodecProps.pr_single := CodecProps.pr_single acc; CodecProps.pr_subid := CodecProps.pr_subid acc ++ l;
+     CodecProps.pr_user := CodecProps.pr_user acc |}.
+Proof.
+  induction l as [|x l IH]; intros acc; cbn [map fold_left].
+  - rewrite app_nil_r. now destruct acc.
+  - rewrite IH. cbn [wp_step CodecProps.pr_single CodecProps.pr_subid CodecProps.pr_user]. now rewrite <- app_assoc.
+Qed.
+
+Lemma fold_user (l : list (str * str)) : forall acc,
+  fold_left wp_step (map (fun kv => PUser (fst kv) (snd kv)) l) acc =
+  {| CodecProps.pr_single := CodecProps.pr_single acc; CodecProps.pr_subid := CodecProps.pr_subid acc;
+     CodecProps.pr_user := CodecProps.pr_user acc ++ l |}.
+Proof.
+  induction l as [|[a b] l IH]; intros acc; cbn [map fold_left].
+  - rewrite app_nil_r. now destruct acc.
+  - rewrite IH. cbn [wp_step CodecProps.pr_single CodecProps.pr_subid CodecProps.pr_user fst snd]. now rewrite <- app_assoc.
+Qed.
+
+(* the codec-side property block of the properties write_publish attaches: that of the message, plus the
+   three bytes of the Topic Alias property *)
+Lemma wire_props_len m extra :
+  (extra = [] \/ exists a, extra = [PAlias a]) ->
+  len (CodecProps.props_body (wire_props (msg_props true m ++ extra))) =
+  CodecMsgP.msg_props_len m + (match extra with [] => 0 | _ => 3 end).
+Proof.
+  intros Hex. rewrite wire_props_eq. unfold msg_props. rewrite <- !app_assoc, !fold_left_app.
+  rewrite fold_user, fold_subid.
+  unfold CodecMsgP.msg_props_len. rewrite CodecMsgP.fold_subids, CodecMsgP.fold_uprops.
+  unfold CodecProps.props_body.
+  destruct Hex as [->|[a ->]];
+  destruct (m_pfmt m =? 1); destruct (m_expiry m =? 0); destruct (m_ctype m) as [|c1 ct];
+    destruct (m_resp m) as [|r1 rt]; destruct (m_corr m) as [|k1 kt];
+    cbn [fold_left wp_step app CodecProps.set_single CodecProps.pr_single CodecProps.pr_subid CodecProps.pr_user CodecProps.props_empty
+         CodecProps.ps_set N.ltb N.compare Pos.compare Pos.compare_cont N.eqb Pos.eqb filter fst andb
+         CodecProps.pack_singles flat_map CodecProps.pack_single];
+    repeat first [rewrite len_app | rewrite len_put32 | rewrite len_put16 | rewrite len_put_bin | rewrite len_cons | rewrite len_nil];
+    cbn [N.eqb]; try lia;
+    repeat match goal with |- context [?a + ?b =? 0] => replace (a + b =? 0) with false by lia end; lia.
+Qed.
+
+Definition fh_len (rl : N) : N := if rl <? 128 then 2 else if rl <? 16384 then 3 else if rl <? 2097152 then 4 else 5.
+
+(* the size of a v5 PUBLISH as the codec model writes it *)
+Lemma wire_len_formula c dup qos ret topic payload pid props n :
+  wire_len (OSend c (KPublish dup qos ret topic payload pid props)) = Some n ->
+  let pl := len (CodecProps.props_body (wire_props props)) in
+  let rl := 2 + len topic + (if (qos =? 1) || (qos =? 2) then 2 else 0) + (varlen pl + pl) + len payload in
+  rl < 268435456 /\ n = fh_len rl + rl.
+Proof.
+  unfold wire_len, CodecPackets.pack, CodecPackets.pack_full. intros H.
+  destruct (CodecPackets.pack_body _) as [[[t fl] bytes]| | |] eqn:Epb; cbn [CodecBase.bind] in H; try discriminate.
+  destruct (CodecPackets.pack_fixhdr _) as [l| | |] eqn:Eh; cbn [CodecBase.bind] in H; try discriminate.
+  injection H as <-.
+  apply CodecMsgP.pack_body_publish_len in Epb. cbn [N.eqb Pos.eqb] in Epb. rewrite CodecMsgP.len_props_pack in Epb.
+  apply CodecSizeP.pack_fixhdr_len in Eh. cbn [CodecPackets.fh_rl] in Eh. destruct Eh as [Hlt Hl].
+  cbv zeta. rewrite <- Epb. split; [exact Hlt|]. rewrite len_app, Hl. reflexivity.
+Qed.
+
+Ltac Zify.zify_post_hook ::= Z.div_mod_to_equations.
+
+Lemma mtb_eq m :
+  msg_total_bytes true m =
+  (let pl := CodecMsgP.msg_props_len m in
+   let rl := len (m_payload m) + 2 + len (m_topic m) + (if 0 <? m_qos m then 2 else 0) + pl + varlen pl in
+   ((if rl <=? 127 then 2 else if rl <=? 16383 then 3 else if rl <=? 2097151 then 4 else 5) + rl) mod 4294967296).
+Proof. reflexivity. Qed.
+
+Lemma qos_pid_bytes q : q <= 2 -> (if (q =? 1) || (q =? 2) then 2 else 0) = (if 0 <? q then 2 else 0).
+Proof. intros H. destruct (N.eqb_spec q 0) as [->|E]; [reflexivity|].
+  replace ((q =? 1) || (q =? 2)) with true by lia. replace (0 <? q) with true by lia. reflexivity. Qed.
+
+(* sizes: T' is the topic written (the topic or nothing), d the bytes of the alias property (3 or 0) *)
+Lemma size_arith P T T' Q pl d n :
+  T' <= T -> T <= 65535 -> d <= 3 ->
+  let rl' := 2 + T' + Q + (varlen (pl + d) + (pl + d)) + P in
+  rl' < 268435456 -> n = fh_len rl' + rl' ->
+  let rl := P + 2 + T + Q + pl + varlen pl in
+  let tb := ((if rl <=? 127 then 2 else if rl <=? 16383 then 3 else if rl <=? 2097151 then 4 else 5) + rl) mod 4294967296 in
+  n <= tb + 5 /\ (d = 0 -> T' = T -> n = tb).
+Proof.
+  cbv zeta. unfold fh_len, varlen. intros H1 H2 H3 H4 ->.
+  repeat match goal with |- context [if ?b then _ else _] => destruct b eqn:? end; lia.
+Qed.
+
+(* C13 on the wire: a v5 PUBLISH written by write_publish for a message that measures at most the client's
+   Maximum Packet Size (what the queue's size filter guarantees for first transmissions: C13_out_size) is at
+   most that many bytes as the codec model encodes it - with or without the Topic Alias property *)
+Theorem C13_wire_size c k m o n :
+  k_v k = 5 -> m_qos m <= 2 -> len (m_topic m) <= 65535 ->
+  msg_total_bytes true m <= k_client_max_packet k ->
+  In o (snd (write_publish c k m)) -> wire_len o = Some n -> n <= k_client_max_packet k.
+Proof.
+  intros Hv Hq Ht Hsz Hin Hw. unfold write_publish in Hin. rewrite Hv in Hin. cbn [N.eqb Pos.eqb andb] in Hin.
+  rewrite mtb_eq in Hsz. cbv zeta in Hsz.
+  destruct ((0 <? k_client_alias_max k) && (msg_total_bytes true m + 5 <=? k_client_max_packet k)) eqn:Ea.
+  - apply andb_true_iff in Ea as [_ Ea]. apply N.leb_le in Ea. rewrite mtb_eq in Ea. cbv zeta in Ea.
+    destruct (am_check (m_topic m) (k_alias_out k)) as [am' [a ex|]]; cbn [snd] in Hin; [|destruct Hin].
+    destruct Hin as [<-|[]]. apply wire_len_formula in Hw. cbv zeta in Hw. destruct Hw as [Hlt Hn].
+    rewrite (qos_pid_bytes _ Hq) in Hlt, Hn.
+    assert (Hpl : exists d, d <= 3 /\ len (CodecProps.props_body (wire_props (msg_props true m ++ (if a =? 0 then [] else [PAlias a]))))
+                                 = CodecMsgP.msg_props_len m + d).
+    { destruct (a =? 0); [exists 0|exists 3]; (split; [lia|]); rewrite wire_props_len; eauto. }
+    destruct Hpl as (d & Hd & Hpl). rewrite Hpl in Hlt, Hn.
+    assert (HT : len (if ex then [] else m_topic m) <= len (m_topic m)) by (destruct ex; [unfold len; cbn; lia|lia]).
+    destruct (size_arith (len (m_payload m)) (len (m_topic m)) (len (if ex then [] else m_topic m))
+                (if 0 <? m_qos m then 2 else 0) (CodecMsgP.msg_props_len m) d n HT Ht Hd Hlt Hn) as [Hle _].
+    lia.
+  - cbn [snd] in Hin. destruct Hin as [<-|[]]. apply wire_len_formula in Hw. cbv zeta in Hw. destruct Hw as [Hlt Hn].
+    rewrite (qos_pid_bytes _ Hq) in Hlt, Hn.
+    pose proof (wire_props_len m [] (or_introl eq_refl)) as Hpl. rewrite app_nil_r in Hpl. rewrite Hpl in Hlt, Hn.
+    rewrite N.add_0_r in Hlt, Hn.
+    destruct (size_arith (len (m_payload m)) (len (m_topic m)) (len (m_topic m))
+                (if 0 <? m_qos m then 2 else 0) (CodecMsgP.msg_props_len m) 0 n (N.le_refl _) Ht ltac:(lia)) as [_ Heq].
+    + cbv zeta. rewrite N.add_0_r. exact Hlt.
+    + rewrite N.add_0_r. exact Hn.
+    + rewrite (Heq eq_refl eq_refl). exact Hsz.
+Qed.
+
+(* the messages in a session queue are what the decoder lets in: QoS at most 2, a topic of at most 65535 bytes *)
+Definition queued_wf (q : queue) : Prop :=
+  forall e m, In e (q_l q) -> e_body e = QPub m -> m_qos m <= 2 /\ len (m_topic m) <= 65535.
+
+(* ... and at the level of the poll loop: every PUBLISH a turn writes for a queued message of a v5 connection is,
+   as the codec model encodes it, within the client's Maximum Packet Size *)
+Theorem C13_out_wire_size w s c k q s' o x n :
+  PollInv w s c -> nget c (b_conns s) = Some k -> k_v k = 5 -> k_drained k = true ->
+  aget (k_cid k) (b_queues s) = Some q -> queued_wf q ->
+  poll_once c s = Some (s', o) -> In x o -> wire_len x = Some n -> n <= k_client_max_packet k.
+Proof.
+  intros (k0 & q0 & inf & que & Hk0 & Hq0 & _ & _ & _ & HCQ) Hk Hv Hd Hq Hwf Hp Hx Hw.
+  rewrite Hk in Hk0. inversion Hk0; subst k0. rewrite Hq in Hq0. inversion Hq0; subst q0. clear Hk0 Hq0.
+  destruct (poll_once_cases w c s s' o k q inf que Hk Hq HCQ Hp) as (_ & _ & _ & _ & _ & Hcase).
+  destruct Hcase as [Hd' _ _ _|rs Hd' _ _ _ _|ids _ Hh Ho _ _ _ Hq'|ids rs evs pubs q' _ Hh Hr Ho Hrs Hpubs Hevs Hc _]; try congruence.
+  - subst o. contradiction.
+  - subst o. apply in_app_or in Hx. destruct Hx as [Hx|Hx].
+    { apply In_drops_of in Hx. destruct Hx as (m & r & ->). discriminate. }
+    destruct (Forall2_in_r _ _ _ _ Hpubs Hx) as (r & Hr' & m & Hb & _ & _ & k0 & Hss & Hin).
+    rewrite Forall_forall in Hrs. destruct (Hrs r Hr') as (v & m0 & Hvq & Hbv & Hsz & _ & _ & Hcs).
+    assert (Hin_q : In v (q_l q)) by (rewrite (qi_l _ _ _ _ (cq_q _ _ _ _ _ _ HCQ)); apply in_or_app; now right).
+    destruct (Hwf v m0 Hin_q Hbv) as [Hq2 Ht].
+    destruct Hss as (_ & Hv0 & _ & _ & HL0 & _).
+    destruct (aged_fields (k_v k =? 5) (b_now s) r m) as (_ & A2 & _ & A4 & _ & _).
+    rewrite Hv in Hsz. cbn [N.eqb Pos.eqb] in Hsz.
+    assert (Hm : m_qos m = m_qos m0 /\ m_topic m = m_topic m0 /\ msg_total_bytes true m = msg_total_bytes true m0).
+    { destruct Hcs as [[_ ->]|(_ & p & _ & Hbr)].
+      - rewrite Hbv in Hb. now inversion Hb.
+      - rewrite Hbr in Hb. inversion Hb; subst m. auto. }
+    destruct Hm as (M1 & M2 & M3).
+    rewrite <- HL0. apply (C13_wire_size c k0 (aged (k_v k =? 5) (b_now s) r m) x n); try assumption.
+    + congruence.
+    + now rewrite A2, M1.
+    + now rewrite A4, M2.
+    + now rewrite total_bytes_aged, M3, HL0.
 Qed.
